@@ -43,4 +43,35 @@ theorem exec_decode_rejects_wrong_lock (lock secret : Fq) (index : Nat)
     ∃ err, execRevPairDecode lock secret index = .error err :=
   C05.decode_rejects_wrong_lock sha3_256 decFq encFq lock secret index h
 
+
+/-! ### the state always has 25 lanes: the defaults of `getD` in `Model/Sha3.lean` are never used -/
+
+theorem round_size (a : St) (k : UInt64) : (round a k).size = 25 := by
+  simp [round, iota, chi]
+
+theorem xorBlock_size (a : St) (blk : List UInt8) : (xorBlock a blk).size = 25 := by
+  simp [xorBlock]
+
+theorem keccakF_size (a : St) (h : a.size = 25) : (keccakF a).size = 25 := by
+  have key : ∀ (l : List UInt64) (a : St), a.size = 25 → (l.foldl round a).size = 25 := by
+    intro l
+    induction l with
+    | nil => intro a h; simpa using h
+    | cons k ks ih => intro a _; simp only [List.foldl_cons]; exact ih _ (round_size a k)
+  exact key rc a h
+
+theorem absorb_size (f : Nat) (a : St) (bs : List UInt8) (h : a.size = 25) : (absorb f a bs).size = 25 := by
+  induction f generalizing a bs with
+  | zero => simpa [absorb] using h
+  | succ f ih =>
+    simp only [absorb]
+    split
+    · exact h
+    · exact ih _ _ (keccakF_size _ (xorBlock_size _ _))
+
+/-- the state the digest is squeezed from has 25 lanes, for every message -/
+theorem squeezed_state_size (bs : List UInt8) :
+    (absorb ((pad bs).length / rate + 1) St.zero (pad bs)).size = 25 :=
+  absorb_size _ _ _ (by simp [St.zero])
+
 end ZkVerif.Sha3
